@@ -31,6 +31,7 @@ ASSUMPTIONS = ['tensor-preservation tolerance 50 d eps prod_k ||G_k||_F '
     'orthonormality tolerance 20 (r n) eps on Gram matrices',
     '"moderate magnitude": every |entry| <= 2^10, pivot max >= 2^-10 unless '
     'the tensor norm is below 1e-90 (core_stab does not rescale below 1e-100)']
+COVER = ['transformation.orthogonalize', 'transformation.orthogonalize_left', 'transformation.orthogonalize_right', 'core.core_stab']
 SHARDS = {'quick': 12, 'thorough': 16}
 
 
